@@ -11,6 +11,7 @@ import (
 	"fmt"
 	"io"
 	"net"
+	"net/netip"
 	"os"
 	"sort"
 	"strconv"
@@ -575,6 +576,25 @@ func (c *UDPConn) ReadFromUDP(b []byte) (int, *net.UDPAddr, error) {
 		simrt.RaceWriteRange(unsafe.Pointer(&b[0]), n)
 	}
 	return n, &net.UDPAddr{IP: cloneIP(op.from.IP), Port: op.from.Port}, nil
+}
+
+// ReadFromUDPAddrPort: as the real one, a socket bound to the wildcard address is a dual-stack socket and reports IPv4
+// peers as IPv4-mapped IPv6 addresses (callers must Unmap); a socket bound to an IPv4 address reports plain IPv4.
+func (c *UDPConn) ReadFromUDPAddrPort(b []byte) (int, netip.AddrPort, error) {
+	n, a, err := c.ReadFromUDP(b)
+	if err != nil || a == nil {
+		return n, netip.AddrPort{}, err
+	}
+	ip, _ := netip.AddrFromSlice(a.IP.To4())
+	if c.s.Local.IP == nil {
+		ip = netip.AddrFrom16(ip.As16())
+	}
+	return n, netip.AddrPortFrom(ip, uint16(a.Port)), nil
+}
+
+// WriteToUDPAddrPort sends to addr (mapped addresses are unmapped).
+func (c *UDPConn) WriteToUDPAddrPort(b []byte, addr netip.AddrPort) (int, error) {
+	return c.WriteToUDP(b, &net.UDPAddr{IP: net.IP(addr.Addr().Unmap().AsSlice()), Port: int(addr.Port())})
 }
 
 func (c *UDPConn) ReadFrom(b []byte) (int, net.Addr, error) {
